@@ -3643,8 +3643,14 @@ impl Compiler {
         let rhs_node = ctx.node_with_span(rhs);
         let result = match &rhs_node.node {
             Node::Id(id, ..) => {
+                // The call is attributed to the function's id rather than to the whole pipe
+                // expression, matching piped calls into chains (e.g. `x -> foo.bar`).
+                self.push_span(rhs_node, ctx.ast);
+
                 // Compile a call with the piped arg, using the id to access the function
-                if let Some(function_register) = self.frame().get_local_assigned_register(*id) {
+                let call_result = if let Some(function_register) =
+                    self.frame().get_local_assigned_register(*id)
+                {
                     self.compile_call(function_register, &[], pipe_register, None, ctx)
                 } else {
                     let call_result_register = if let Some(result_register) = result.register {
@@ -3661,7 +3667,10 @@ impl Compiler {
 
                     self.pop_register()?; // function_register
                     Ok(result)
-                }
+                };
+
+                self.pop_span();
+                call_result
             }
             Node::Chain(chain_node) => {
                 // Compile the chain, passing in the piped call arg, which will either be appended
@@ -3675,8 +3684,10 @@ impl Compiler {
                 let function = self.compile_node(rhs, ctx.with_any_register())?;
                 let function_register = function.unwrap(self)?;
                 let call_context = ctx.with_register(call_result_register);
+                self.push_span(rhs_node, ctx.ast);
                 let result =
                     self.compile_call(function_register, &[], pipe_register, None, call_context)?;
+                self.pop_span();
                 if function.is_temporary {
                     self.pop_register()?;
                 }
